@@ -41,6 +41,11 @@ TYPES = {
     'string_minlen': ({'type': 'string', 'constraints': {'minLength': 2}}, ['ab', 'abc', 'a', 'xyz']),
     'integer_required': ({'type': 'integer', 'constraints': {'required': True}}, ['1', '2', '', 'x', '33']),
     'integer_max': ({'type': 'integer', 'constraints': {'maximum': 10}}, ['1', '10', '11', '-3', 'x']),
+    # native (non-text) cells of mixed python types, several of them ==/hash-equal to one another
+    'integer_native': ({'type': 'integer'}, [1, True, 1.0, 0, False, 2, '2', 2.5, None]),
+    'boolean_native': ({'type': 'boolean'}, [True, 1, False, 0, 1.0, 'true', 'false', None]),
+    'number_native': ({'type': 'number'}, [1, True, 1.5, 1.0, False, 0, '0', None]),
+    'year_native': ({'type': 'year'}, [2020, 2020.0, True, '2020', 20, None]),
 }
 POLICIES = ['default', 'raise', 'drop', 'ignore', 'clear', 'custom4', 'custom5']
 FORMS = ['set_type', 'set_type', 'set_type', 'validate_schema', 'validate_fn', 'validate_field_fn']
@@ -108,14 +113,21 @@ def run_case(case):
     # which fields does the step check, and with which declared descriptor?
     log = []
 
+    calls_in_row = {}
+
+    def decide(rid):
+        # the verdict differs from one offending field to the next within the same row
+        k = calls_in_row[rid] = calls_in_row.get(rid, -1) + 1
+        return (rid * 7 + k * 5) % 3 != 0
+
     def h4(res_name, row, i, e):
         log.append((res_name, row.get('id'), i, None, type(e).__name__ if e is not None else None))
-        return row.get('id', 0) % 3 != 0
+        return decide(row.get('id', 0))
 
     def h5(res_name, row, i, e, field):
         log.append((res_name, row.get('id'), i, getattr(field, 'name', None),
                     type(e).__name__ if e is not None else None))
-        return row.get('id', 0) % 2 == 0
+        return decide(row.get('id', 0))
     handler = {'default': None, 'raise': sv.raise_exception, 'drop': sv.drop, 'ignore': sv.ignore,
                'clear': sv.clear, 'custom4': h4, 'custom5': h5}[policy]
     transform = None
@@ -233,9 +245,9 @@ def run_case(case):
                 for n in bad:
                     new[n] = None
         else:
-            for n in bad:
+            for kk, n in enumerate(bad):
                 exp_log.append((target_res, row['id'], i, n if policy == 'custom5' else None))
-                ret = (row['id'] % 3 != 0) if policy == 'custom4' else (row['id'] % 2 == 0)
+                ret = (row['id'] * 7 + kk * 5) % 3 != 0
                 keep = keep and ret
         if keep:
             exp_rows.append((new, bad))
